@@ -1,6 +1,8 @@
 package main
 
 import (
+	"strconv"
+	"os"
 	"fmt"
 	"go/token"
 	"go/types"
@@ -35,9 +37,31 @@ func (fc *FnCtx) genBody(in *State, reachIn string) {
 	}
 	rpo := fc.analyzeCFG()
 	savedLoops := g.curLoops
+	isRoot := fc.parent == nil && !fc.inlined
+	if isRoot {
+		// forward reachability between blocks (back edges cut): used to leave out of an obligation's query the
+		// assumptions made in blocks that cannot reach it (solve.go)
+		g.rootReach = map[int]map[int]bool{}
+		for i := len(rpo) - 1; i >= 0; i-- {
+			b := rpo[i]
+			r := map[int]bool{b.Index: true}
+			for _, s := range b.Succs {
+				if fc.backEdge[[2]int{b.Index, s.Index}] {
+					continue
+				}
+				for x := range g.rootReach[s.Index] {
+					r[x] = true
+				}
+			}
+			g.rootReach[b.Index] = r
+		}
+	}
 
 	for _, b := range rpo {
 		fc.curBlock = b
+		if isRoot {
+			g.curBlk = b.Index
+		}
 		g.curLoops = append(append([]string{}, savedLoops...), fc.loopsOf[b]...)
 		// incoming forward edges
 		var conds []string
@@ -96,7 +120,30 @@ func (fc *FnCtx) genBody(in *State, reachIn string) {
 			if _, ok := ins.(*ssa.Phi); ok {
 				continue
 			}
+			if isRoot && os.Getenv("GOVC_ASSERT") != "" {
+				// debugging aid: GOVC_ASSERT="LINE: expr" adds an obligation before the first instruction of that line
+				spec := os.Getenv("GOVC_ASSERT")
+				if i := strings.Index(spec, ":"); i > 0 {
+					ln, _ := strconv.Atoi(strings.TrimSpace(spec[:i]))
+					if p := g.ld.fset.Position(posOf(ins)); p.Line == ln && !fc.assertDone {
+						fc.assertDone = true
+						n, err := parseCExpr(strings.TrimSpace(spec[i+1:]))
+						if err != nil {
+							panic(err)
+						}
+						env := fc.envAt(fc.cur, fc.debugNames)
+						fc.oblige("assert", fmt.Sprint(ln), posOf(ins), env.boolExpr(n), spec, "")
+					}
+				}
+			}
 			fc.instr(ins)
+			if isRoot && os.Getenv("GOVC_PROBE") != "" {
+				// debugging aid: an obligation `false` after every call of the root function; one that is
+				// *proved* shows that the assumptions made so far are contradictory on this path
+				if _, isCall := ins.(*ssa.Call); isCall && (os.Getenv("GOVC_PROBE") == "1" || os.Getenv("GOVC_PROBE") == fmt.Sprint(b.Index)) {
+					fc.oblige("probe", fmt.Sprintf("b%d:%s", b.Index, fc.posStr(ins)), posOf(ins), "false", "", "")
+				}
+			}
 		}
 		fc.exit[b] = fc.cur
 		// back edges leaving this block: inv-step
@@ -193,32 +240,20 @@ func (fc *FnCtx) loopHeader(h *ssa.BasicBlock, phiEntry map[*ssa.Phi]string) {
 	}
 	// 2. havoc loop-modified state
 	st := preState.clone()
-	if g.pass == 1 || g.loopAll[id] {
+	{
 		old := g.get(st, "$alloc")
+		mod := g.loopHavocs(id)
 		for _, k := range g.keyOrder {
-			if g.keys[k].kind == "stable" {
+			if g.keys[k].kind == "stable" || !mod(k) {
 				continue
 			}
 			st.m[k] = g.fresh("lp."+k, g.keys[k].sort)
 		}
-		g.assumeRaw(fmt.Sprintf("(<= %s %s)", old, g.get(st, "$alloc")))
-		for _, k := range g.keyOrder {
-			if g.keys[k].ref != "" && g.keys[k].kind != "stable" {
-				g.heapBound(k, g.get(st, k), g.get(st, "$alloc"))
-			}
-		}
-	} else {
-		old := g.get(st, "$alloc")
-		for _, k := range g.keyOrder {
-			if g.loopMods[id][k] {
-				st.m[k] = g.fresh("lp."+k, g.keys[k].sort)
-			}
-		}
-		if g.loopMods[id]["$alloc"] {
+		if mod("$alloc") {
 			g.assumeRaw(fmt.Sprintf("(<= %s %s)", old, g.get(st, "$alloc")))
 		}
 		for _, k := range g.keyOrder {
-			if g.loopMods[id][k] && g.keys[k].ref != "" {
+			if mod(k) && g.keys[k].ref != "" && g.keys[k].kind != "stable" {
 				g.heapBound(k, g.get(st, k), g.get(st, "$alloc"))
 			}
 		}
